@@ -172,7 +172,7 @@ func genPauseDown(c *ctx) {
 				case r < 5 && nfr == 0 && fin && finAt < 0:
 					finAt = slot
 					evs = append(evs, F(slot))
-				case r < 7 && !pausing && slot+5 > lastR+11:
+				case r < 7 && !pausing && slot+5 > lastR+15:
 					pausing = true
 					evs = append(evs, P(slot+5))
 				case r < 9 && pausing:
